@@ -468,11 +468,11 @@ pub fn run(prop: &str, tier: &str, seed: u64, out: &str) {
             _ => {
                 oracle_c12(&mut rep, &case, &st, &gens);
                 oracle_idempotent(&mut rep, &case, &st, &gens);
-                let crash_every = if thorough { 10 } else { 25 };
+                let crash_every = if thorough { 20 } else { 25 };
                 if i % crash_every == 0 || fixed_plans.is_some() {
                     let g = gens[0];
                     if g.outs.len() <= 40 {
-                        let co = crash_cases(&mut rep, &mut rng, &describe(&prior, &[g]), &prior, g, if thorough { 8 } else { 2 }, fixed_plans.clone());
+                        let co = crash_cases(&mut rep, &mut rng, &describe(&prior, &[g]), &prior, g, if thorough { 5 } else { 2 }, fixed_plans.clone());
                         for (q, im) in co.reqs.into_iter().zip(co.imps.into_iter()) {
                             reqs.push(q); imps.push(im); projs.push((Tree::new(), vec![])); kinds.push(1);
                         }
